@@ -1,0 +1,189 @@
+// counts how many times each name is bound anywhere in a program (let, fn, parameter,
+// loop variable, lambda parameter). Name-based passes may only treat a name as denoting
+// one definition when it is bound exactly once.
+
+use aelys_sema::{TypedExpr, TypedExprKind, TypedFmtStringPart, TypedParam, TypedStmt, TypedStmtKind};
+use std::collections::HashMap;
+
+pub type BinderCounts = HashMap<String, usize>;
+
+pub fn count_binders(stmts: &[TypedStmt]) -> BinderCounts {
+    let mut counts = HashMap::new();
+    for stmt in stmts {
+        count_in_stmt(stmt, &mut counts);
+    }
+    counts
+}
+
+pub fn is_bound_once(counts: &BinderCounts, name: &str) -> bool {
+    counts.get(name).copied().unwrap_or(0) == 1
+}
+
+fn bind(name: &str, counts: &mut BinderCounts) {
+    *counts.entry(name.to_string()).or_insert(0) += 1;
+}
+
+fn count_params(params: &[TypedParam], counts: &mut BinderCounts) {
+    for p in params {
+        bind(&p.name, counts);
+    }
+}
+
+fn count_in_stmt(stmt: &TypedStmt, counts: &mut BinderCounts) {
+    match &stmt.kind {
+        TypedStmtKind::Expression(e) => count_in_expr(e, counts),
+        TypedStmtKind::Let {
+            name, initializer, ..
+        } => {
+            bind(name, counts);
+            count_in_expr(initializer, counts);
+        }
+        TypedStmtKind::Block(stmts) => {
+            for s in stmts {
+                count_in_stmt(s, counts);
+            }
+        }
+        TypedStmtKind::If {
+            condition,
+            then_branch,
+            else_branch,
+        } => {
+            count_in_expr(condition, counts);
+            count_in_stmt(then_branch, counts);
+            if let Some(e) = else_branch {
+                count_in_stmt(e, counts);
+            }
+        }
+        TypedStmtKind::While { condition, body } => {
+            count_in_expr(condition, counts);
+            count_in_stmt(body, counts);
+        }
+        TypedStmtKind::For {
+            iterator,
+            start,
+            end,
+            step,
+            body,
+            ..
+        } => {
+            bind(iterator, counts);
+            count_in_expr(start, counts);
+            count_in_expr(end, counts);
+            if let Some(s) = &**step {
+                count_in_expr(s, counts);
+            }
+            count_in_stmt(body, counts);
+        }
+        TypedStmtKind::ForEach {
+            iterator,
+            iterable,
+            body,
+            ..
+        } => {
+            bind(iterator, counts);
+            count_in_expr(iterable, counts);
+            count_in_stmt(body, counts);
+        }
+        TypedStmtKind::Return(Some(e)) => count_in_expr(e, counts),
+        TypedStmtKind::Function(f) => {
+            bind(&f.name, counts);
+            count_params(&f.params, counts);
+            for s in &f.body {
+                count_in_stmt(s, counts);
+            }
+        }
+        TypedStmtKind::Return(None)
+        | TypedStmtKind::Break
+        | TypedStmtKind::Continue
+        | TypedStmtKind::Needs(_)
+        | TypedStmtKind::StructDecl { .. } => {}
+    }
+}
+
+fn count_in_expr(expr: &TypedExpr, counts: &mut BinderCounts) {
+    match &expr.kind {
+        TypedExprKind::LambdaInner { params, body, .. } => {
+            count_params(params, counts);
+            for s in body {
+                count_in_stmt(s, counts);
+            }
+        }
+        TypedExprKind::Binary { left, right, .. }
+        | TypedExprKind::And { left, right }
+        | TypedExprKind::Or { left, right } => {
+            count_in_expr(left, counts);
+            count_in_expr(right, counts);
+        }
+        TypedExprKind::Unary { operand, .. }
+        | TypedExprKind::Grouping(operand)
+        | TypedExprKind::Lambda(operand)
+        | TypedExprKind::Cast { expr: operand, .. } => count_in_expr(operand, counts),
+        TypedExprKind::Call { callee, args } => {
+            count_in_expr(callee, counts);
+            for a in args {
+                count_in_expr(a, counts);
+            }
+        }
+        TypedExprKind::Assign { value, .. } => count_in_expr(value, counts),
+        TypedExprKind::If {
+            condition,
+            then_branch,
+            else_branch,
+        } => {
+            count_in_expr(condition, counts);
+            count_in_expr(then_branch, counts);
+            count_in_expr(else_branch, counts);
+        }
+        TypedExprKind::Member { object, .. } => count_in_expr(object, counts),
+        TypedExprKind::ArrayLiteral { elements, .. }
+        | TypedExprKind::VecLiteral { elements, .. } => {
+            for e in elements {
+                count_in_expr(e, counts);
+            }
+        }
+        TypedExprKind::ArraySized { size, .. } => count_in_expr(size, counts),
+        TypedExprKind::Index { object, index }
+        | TypedExprKind::Slice {
+            object,
+            range: index,
+        } => {
+            count_in_expr(object, counts);
+            count_in_expr(index, counts);
+        }
+        TypedExprKind::IndexAssign {
+            object,
+            index,
+            value,
+        } => {
+            count_in_expr(object, counts);
+            count_in_expr(index, counts);
+            count_in_expr(value, counts);
+        }
+        TypedExprKind::Range { start, end, .. } => {
+            if let Some(s) = start {
+                count_in_expr(s, counts);
+            }
+            if let Some(e) = end {
+                count_in_expr(e, counts);
+            }
+        }
+        TypedExprKind::FmtString(parts) => {
+            for part in parts {
+                if let TypedFmtStringPart::Expr(e) = part {
+                    count_in_expr(e, counts);
+                }
+            }
+        }
+        TypedExprKind::StructLiteral { fields, .. } => {
+            for (_, v) in fields {
+                count_in_expr(v, counts);
+            }
+        }
+        TypedExprKind::Int(_)
+        | TypedExprKind::Float(_)
+        | TypedExprKind::Bool(_)
+        | TypedExprKind::String(_)
+        | TypedExprKind::Null
+        | TypedExprKind::Identifier(_) => {}
+    }
+}
